@@ -675,6 +675,119 @@ def _u_max(vm, cal, args):
     return I(z3.If(z3.UGE(a.e, b.e), a.e, b.e), False)
 
 
+_INT_TYS = ('u8', 'u16', 'u32', 'u64', 'u128', 'usize', 'i8', 'i16', 'i32', 'i64', 'i128', 'isize')
+
+
+def _int_keys(*methods):
+    return [(t, None, m) for t in _INT_TYS for m in methods]
+
+
+def _ovf(op, a, b, signed):
+    """(wrapped result, overflow condition) of a machine-integer operation"""
+    if op == 'add':
+        r = a + b
+        ok = z3.And(z3.BVAddNoOverflow(a, b, signed), z3.BVAddNoUnderflow(a, b)) if signed else z3.BVAddNoOverflow(a, b, False)
+    elif op == 'sub':
+        r = a - b
+        ok = z3.And(z3.BVSubNoOverflow(a, b), z3.BVSubNoUnderflow(a, b, signed)) if signed else z3.UGE(a, b)
+    else:
+        r = a * b
+        ok = z3.And(z3.BVMulNoOverflow(a, b, signed), z3.BVMulNoUnderflow(a, b)) if signed else z3.BVMulNoOverflow(a, b, False)
+    return r, z3.Not(ok)
+
+
+@reg(*_int_keys('saturating_add', 'saturating_sub', 'saturating_mul'))
+def _saturating(vm, cal, args):
+    a, b = args
+    op = cal.method.split('_')[1]
+    r, ovf = _ovf(op, a.e, b.e, a.signed)
+    bits = a.bits
+    if not a.signed:
+        sat = z3.BitVecVal(0, bits) if op == 'sub' else z3.BitVecVal(2 ** bits - 1, bits)
+    else:
+        mx, mn = z3.BitVecVal(2 ** (bits - 1) - 1, bits), z3.BitVecVal(-(2 ** (bits - 1)), bits)
+        if op == 'add':
+            sat = z3.If(b.e < 0, mn, mx)
+        elif op == 'sub':
+            sat = z3.If(b.e < 0, mx, mn)
+        else:
+            sat = z3.If((a.e < 0) != (b.e < 0), mn, mx)
+    return I(z3.If(ovf, sat, r), a.signed)
+
+
+@reg(*_int_keys('wrapping_add', 'wrapping_sub', 'wrapping_mul'))
+def _wrapping(vm, cal, args):
+    a, b = args
+    r, _ = _ovf(cal.method.split('_')[1], a.e, b.e, a.signed)
+    return I(r, a.signed)
+
+
+@reg(*_int_keys('checked_add', 'checked_sub', 'checked_mul'))
+def _checked(vm, cal, args):
+    a, b = args
+    r, ovf = _ovf(cal.method.split('_')[1], a.e, b.e, a.signed)
+    if vm.branch(ovf):
+        return NONE
+    return SOME(I(r, a.signed))
+
+
+@reg(*_int_keys('overflowing_add', 'overflowing_sub', 'overflowing_mul'))
+def _overflowing(vm, cal, args):
+    a, b = args
+    r, ovf = _ovf(cal.method.split('_')[1], a.e, b.e, a.signed)
+    return (I(r, a.signed), ovf)
+
+
+@reg(*_int_keys('abs_diff'))
+def _abs_diff_any(vm, cal, args):
+    a, b = args
+    if a.signed:
+        return I(z3.If(a.e >= b.e, a.e - b.e, b.e - a.e), False)
+    return I(z3.If(z3.UGE(a.e, b.e), a.e - b.e, b.e - a.e), False)
+
+
+@reg(*_int_keys('min', 'max'))
+def _int_minmax(vm, cal, args):
+    return (_u_min if cal.method == 'min' else _u_max)(vm, cal, args)
+
+
+@reg(*_int_keys('clamp'))
+def _int_clamp(vm, cal, args):
+    x, lo, hi = args
+    lt = (lambda p, q: p < q) if x.signed else z3.ULT
+    return I(z3.If(lt(x.e, lo.e), lo.e, z3.If(lt(hi.e, x.e), hi.e, x.e)), x.signed)
+
+
+@reg(*_int_keys('pow'))
+def _int_pow(vm, cal, args):
+    a, n = args
+    c = n.concrete()
+    if c is None or c > 8:
+        raise Unmodelled("integer pow with a symbolic / large exponent")
+    r = z3.BitVecVal(1, a.bits)
+    for _ in range(c):
+        r = r * a.e
+    return I(r, a.signed)
+
+
+@reg(*[(t, None, 'is_positive') for t in _INT_TYS] + [(t, None, 'is_negative') for t in _INT_TYS])
+def _int_sign(vm, cal, args):
+    a = args[0]
+    return (a.e > 0) if cal.method == 'is_positive' else (a.e < 0)
+
+
+@reg(*[(t, None, 'signum') for t in _INT_TYS])
+def _int_signum(vm, cal, args):
+    a = args[0]
+    return I(z3.If(a.e > 0, z3.BitVecVal(1, a.bits), z3.If(a.e < 0, z3.BitVecVal(-1, a.bits), z3.BitVecVal(0, a.bits))), True)
+
+
+@reg(*[(t, None, 'unsigned_abs') for t in _INT_TYS])
+def _int_uabs(vm, cal, args):
+    a = args[0]
+    return I(z3.If(a.e < 0, -a.e, a.e), False)
+
+
 @reg(('RangeInclusive', None, 'new'))
 def _ri_new(vm, cal, args):
     return Adt('RangeInclusive', 0, (args[0], args[1]))
